@@ -14,19 +14,6 @@ open Pyg
 
 /-! ## scalars -/
 
-/-- value of parameter `p` among scalar keyword arguments -/
-def argOf (kvs : List (String × Cell)) (p : String) : Cell :=
-  ((kvs.find? (·.1 == p)).map (·.2)).getD .none
-
-theorem cellAt_scalars (kvs : List (String × Cell)) (p : String) :
-    Table.cellAt (kvs.map fun kv => (kv.1, [kv.2])) p 0 = argOf kvs p := by
-  simp only [Table.cellAt, Table.col?, argOf]
-  induction kvs with
-  | nil => rfl
-  | cons kv kvs ih =>
-    simp only [List.map_cons, List.find?_cons]
-    split <;> simp_all
-
 /-- **scalar passthrough**: when every input (and `expiry`) is a scalar the lifted function returns
 `f(...)` itself, after exactly one call of `f` on the given values — whatever `on`, the defaults
 and the expiry are -/
